@@ -59,13 +59,11 @@ def run(chk, ctx):
         if f.header is None:
             raise AnalysisError('no envelope header read found in '
                                 'frame.unmarshal')
-        hf = T.fmt(f.header.args[0])
+        hf = f.header
         size_t, ch_t, ty_t = f.hfield(2), f.hfield(1), f.hfield(0)
         if first:
-            chk.ob('C06.N', 'header read', hf.norm() == F.ENVELOPE and
-                   L.abs_range(f.header.args[1], data) == (0, [hf.size]),
-                   'header read as %r from data[0:%d]' % (f.header.args[0],
-                                                          hf.size))
+            chk.ob('C06.N', 'header read', hf.norm_ok(),
+                   'header fields read as %s' % hf.describe())
         for r in f.rets:
             kind = f.kind_of(r)
             cons = arm_name(f, r)
